@@ -14,8 +14,8 @@ from vlib import lean  # noqa: E402
 
 P = "Poupool.DecisionsTie."
 GROUPS = {
-    "tank": ("Poupool.Properties.DecisionsTie.Tank", ["tank_enter_fill", "tank_poll_fill", "tank_poll_low", "tank_poll_normal", "tank_poll_high"],
-             ["tankEnterFill", "tankPollFill", "tankPollLow", "tankPollNormal", "tankPollHigh"]),
+    "tank": ("Poupool.Properties.DecisionsTie.Tank", ["tank_enter_fill", "tank_poll_fill", "tank_poll_low", "tank_poll_normal", "tank_poll_high", "tank_height_is_sensor_value"],
+             ["tankHeight", "tankEnterFill", "tankPollFill", "tankPollLow", "tankPollNormal", "tankPollHigh"]),
     "winter_filtration": ("Poupool.Properties.DecisionsTie.Winter", ["filtration_winter_poll"], ["filtrationWinterPoll"]),
     "winter_swim": ("Poupool.Properties.DecisionsTie.Winter", ["swim_winter_poll"], ["swimWinterPoll"]),
     "swim_timed": ("Poupool.Properties.DecisionsTie.Winter", ["swim_timed_poll"], ["swimTimedPoll"]),
@@ -25,7 +25,7 @@ GROUPS = {
     "guards_tank": ("Poupool.Properties.DecisionsTie.Guards", ["tank_is_low", "tank_is_high", "pump_stopped_in_standby"], ["tankIsLow", "tankIsHigh", "pumpStoppedInStandby"]),
     "guards_swim": ("Poupool.Properties.DecisionsTie.Guards", ["swim_is_wintering", "swim_allow_swim"], ["swimIsWintering", "swimAllowSwim"]),
     "guards_heating": ("Poupool.Properties.DecisionsTie.Guards", ["heating_allow", "heating_ready"], ["heatingAllow", "heatingReady"]),
-    "heating": ("Poupool.Properties.DecisionsTie.Heating", ["heating_waiting_poll", "heating_asks_only_when_due", "heating_heating_poll"], ["heatingWaitingPoll", "heatingHeatingPoll"]),
+    "heating": ("Poupool.Properties.DecisionsTie.Heating", ["heating_waiting_poll", "heating_asks_only_when_due", "heating_heating_poll", "heating_reads_the_reader"], ["heatingReadTemperature", "heatingWaitingPoll", "heatingHeatingPoll"]),
 }
 
 
